@@ -59,7 +59,11 @@ try:
     shutil.rmtree(os.path.join(wt, "tests"), ignore_errors=True)
     subprocess.run(["git", "-C", wt, "apply", patch], check=True)
     fired = {}
-    c = subprocess.run(["/verif/check", "ALL", "--repo", wt], capture_output=True, text=True, cwd="/verif", env=dict(os.environ, FQR_GEOM_ALL="1"))
+    if os.environ.get("SEED_LIGHT"):
+        # own property only, ordinary quick tier (what a user of the check would run)
+        c = subprocess.run(["/verif/check", "ALL", "--repo", wt, "--only", prop], capture_output=True, text=True, cwd="/verif")
+    else:
+        c = subprocess.run(["/verif/check", "ALL", "--repo", wt], capture_output=True, text=True, cwd="/verif", env=dict(os.environ, FQR_GEOM_ALL="1"))
     for mm in re.finditer(r"^==== (C\d\d)\n(.*?)^==== \1 exit=(\d)", c.stdout, re.S | re.M):
         pr, body, rc = mm.group(1), mm.group(2), int(mm.group(3))
         keys = re.findall(r"VIOLATION property=\S+ replay=\S+/replay/[A-Z0-9]+-(\S+)\.json", body)
